@@ -151,6 +151,16 @@ def ssm_all(ctx, a, seam):
     return out
 
 
+def _has_callable(v, depth=0):
+    if callable(v):
+        return True
+    if depth < 4 and isinstance(v, (list, tuple)):
+        return any(_has_callable(x, depth + 1) for x in v)
+    if depth < 4 and isinstance(v, dict):
+        return any(_has_callable(x, depth + 1) for x in v.values())
+    return False
+
+
 @op("h.drop")
 def h_drop(ctx, a, seam):
     """the client lets go of a result (a network it loaded, a solution it queried): the simulator forgets every
@@ -163,6 +173,12 @@ def h_drop(ctx, a, seam):
     ctx.handles.pop(hid, None)
     ctx.snap_objs.pop("h:" + hid, None)
     ctx.snap_base.pop("h:" + hid, None)
+    # ... including what it got out of it (answers of a solution may be closures over the solution)
+    from . import engine
+    idx = ctx.__dict__.setdefault("_step_index", None) or engine.index_steps(ctx.plan)
+    ctx._step_index = idx
+    gone = {hid} | {sid for sid, s in idx.items() if hid in engine.consumed_handles(s) and not engine.OPS[s["op"]].handle}
+    ctx.kept = [k for k in ctx.kept if k[0]["id"] == hid or not (k[0]["id"] in gone and _has_callable(k[1]))]
     ctx.kept = [k for k in ctx.kept if k[0]["id"] != hid]
     gc.collect(0)          # young generation only (a full collection of this large process costs tens of ms)
     ctx.probe("handles_dropped")
